@@ -15,7 +15,7 @@ from ..vterm import VTerm
 ID = "C18"
 LEVEL = "exploration"
 NEEDS_PTY = True
-N_HIST = {"quick": 25, "thorough": 1200}
+N_HIST = {"quick": 25, "thorough": 9000}
 RULE = (
     "random layout histories (Columns / Pile / Overlay / LineBox / Filler / ListBox scrolling; widgets appearing, "
     "moving, covered, removed and garbage-collected) over mixes of kitty, iterm2 and block image widgets under "
